@@ -11,8 +11,17 @@ ASSUMPTIONS = ['theorems are about Msimple (68 Tame types) and Mslot (78 Slotted
 KINDS = ['addonly', 'perm', 'addonly', 'worddel', 'worddup', 'perm', 'addonly', 'word']
 
 
+def _oracle(d):
+    at = d.get('at', '')
+    if at.startswith(('tostr', 'add', 'rm', 'repl', 'dotx', 'obs')):
+        return 'acceptance of a child / completability (C07) at %s: library %s, model %s' % (at, d.get('real'), d.get('model'))
+    return None
+
+
 def run(ctx):
-    return mc.generic_run(ctx, 'C07', KINDS, n_quick=40, n_thorough=400)
+    from props import combined
+    return combined.run_both(ctx, 'C07', KINDS, {'depths': [0, 1, 2], 'mixed': 0.2, 'copy': 0.05, 'dots': True, 'reuse': 0.6, 'scratch': 0.3},
+                             _oracle, e_quick=(24, 40), e_thorough=(96, 200))
 
 
 def replay(ctx, payload):
